@@ -13,6 +13,8 @@ ASSUMPTIONS = [
 
 BAD_CALLS = [
     ("choose-out-of-range", ["CHOOSE", 99]),
+    ("choose-just-past-the-end", ["CHOOSE_END", 0]),
+    ("choose-two-past-the-end", ["CHOOSE_END", 1]),
     ("set-undeclared", ["SETVAR", "no_such_var", {"i": 1}]),
     ("observe-undeclared", ["OBSERVE", "obsX", "no_such_var"]),
     ("eval-unknown", ["EVAL", "no_such_function"]),
